@@ -64,14 +64,14 @@ ASSUMPTIONS = [
     'dew composition bit for bit; the per-chemical cap is part of the model (theorem limited_cap), monitored: 0 <= V <= 1, '
     'composition >= 0, F_mol >= 0',
     'object identity of the cached solver objects is part of the protocol (`vle.begin <obj>`, `sle.begin <obj>`): the driver '
-    'keeps `_nonzero`/`_index` (VLE) and `_nonzero`/`_index`/`_chemical` (SLE) per object, and `vle.setup` / `sle.setup` '
+    'keeps `_nonzero`/`_index` (VLE) and `_nonzero`/`_index`/`_chemical is set` (SLE) per object, and `vle.setup` / `sle.setup` '
     'compare the reuse decision and the index with the real object',
     'for a stream that also has s/L rows, a VLE call only owns the l and g rows; the placement clauses are evaluated on those',
     'the placement clauses are judged against the DECLARED phase locks (Chemical(..., phase=)), not against the '
     '_light_indices/_heavy_indices the code compiled (a difference is itself reported: misclassified-phase-lock); the model is '
     'given the compiled lists because it mirrors the code',
-    'SLE._setup is modelled with the repair of fixes_proposed/C03-3.md (the index re-use path checks that the solute is a member, '
-    'as the rebuild path does); on the tree as found the check reports negative-flow:sle:T and disagree:sle.setup',
+    'SLE._setup is modelled as of 6d30f81 (the index re-use path checks that the solute is a member, fixes_proposed/C03-3.md) '
+    'and 899e590 (a single-chemical setup stores key set and index too; a multi-chemical setup leaves pure-solute mode)',
     'packages: NaCl and Glucose carry N_solutes 2 and 1 (so `_heavy_solutes`, `_F_mol_heavy` and the sites they guard are live); '
     'package F has un-locked Propane and CO2 for the single-component branch at and above Tc; LLE single_loop=True is drawn (sl=1)',
     'unexpected-raise is not reported for a correlation evaluated outside its range or a solver that did not converge '
